@@ -8,7 +8,9 @@ import RedisVerif.Model.Resp
     N1 <depth> <stack> | N2 …  → decode `*1\r\n` × depth ++ `:1\r\n` on a thread with <stack> bytes
                                   of stack (model: at most stack/16 frames fit)
     E1|E2|E3|E4|E5 <value>     → encoder output (hex); EE / EE5 <hex text> → error encoders
-    CE <hex arg> …             → a command as a frame (client-side encoder 6)
+    CE <hex arg> …             → a command as a frame (client-side encoders 6 and 7)
+    PN <hex>                   → the command name the shadow proxy extracts: `none` | `name=<hex>` |
+                                 `name=~` (a name out of a buffer with non-ASCII bytes: Unicode upper-casing is not modelled)
     F1|F2 <hex> <cuts>         → frames produced by the buffer loop when the bytes arrive cut at
                                   the given offsets (`-` = one piece)
     L <hex>                    → String::from_utf8_lossy
@@ -176,6 +178,13 @@ def step (line : String) : String :=
   | ["EE", h] =>
     match runP bytesTok h with
     | some bs => hexOfBytes (encodeErr bs)
+    | none => "bad-op"
+  | ["PN", h] =>
+    match runP bytesTok h with
+    | some bs =>
+      match proxyName bs with
+      | none => "none"
+      | some n => if bs.all (fun b => b < 128) then "name=" ++ hexOfBytes n else "name=~"
     | none => "bad-op"
   | ["L", h] =>
     match runP bytesTok h with
